@@ -22,7 +22,7 @@ for lf in logs:
                 else:
                     res.setdefault(cur, {}).setdefault(p, r)
 rows = []
-for d in sorted(glob.glob(os.path.join(VERIF, "seeded", "C*-m*"))):
+for d in sorted(glob.glob(os.path.join(VERIF, "seeded", "C*-*m*"))):
     sid = os.path.basename(d)
     prop = sid.split("-")[0]
     notes = open(os.path.join(d, "NOTES.md"), errors="replace").read() if os.path.exists(os.path.join(d, "NOTES.md")) else ""
